@@ -47,6 +47,15 @@ C19_Quo ==
   /\ (Cur.op = "quoexact" /\ Both) =>
         /\ Cur.res_ok = (DQuo(PA.d, PB.d).ok /\ ~DQuo(PA.d, PB.d).rounded)
         /\ Cur.res_ok => SameValue(DQuo(PA.d, PB.d).d)
+\* integer quotient and remainder: q truncated toward zero, an error for a zero divisor or a quotient of
+\* more than 34 digits; x = q*y + r whenever both succeed and the remainder was not rounded
+C19_QuoRem ==
+  /\ (Cur.op = "quoint" /\ Both) =>
+        /\ Cur.res_ok = DQuoInteger(PA.d, PB.d).ok
+        /\ Cur.res_ok => SameValue(DQuoInteger(PA.d, PB.d).d)
+  /\ (Cur.op = "rem" /\ Both) =>
+        /\ Cur.res_ok = DRem(PA.d, PB.d).ok
+        /\ Cur.res_ok => SameValue(DRem(PA.d, PB.d).d)
 \* conversion to integer coins truncates toward zero
 C19_Trim == (Cur.op = "trim" /\ PA.ok) => (Cur.res_ok /\ SameValue(DTrim(PA.d)))
 C19_Cmp == (Cur.op = "cmp" /\ Both) => Cur.cmp = DCmp(PA.d, PB.d)
